@@ -53,6 +53,8 @@ type Solver struct {
 	FeasTimeoutMs int // shorter limit for branch-feasibility queries (unknown = keep the branch)
 	Mirror        *Solver // optional second solver: receives the same assertion stack; obligations are decided by both
 	MirrorStats   struct{ Checked, Agree, Disagree, Unknown int }
+	frames        [][]string // shadow of the assertion stack (for fresh-process re-checks)
+	FreshStats    struct{ Runs, SatRefuted, SatConfirmed, UnknownDecided, Undecided int }
 }
 
 // setTimeout switches the per-query time limit (z3: dynamic option; cvc5: fixed at start).
@@ -193,6 +195,7 @@ func (s *Solver) Push() {
 	s.flush()
 	s.send("(push 1)")
 	s.depth++
+	s.frames = append(s.frames, nil)
 }
 
 func (s *Solver) Pop(n int) {
@@ -201,6 +204,12 @@ func (s *Solver) Pop(n int) {
 	}
 	s.send(fmt.Sprintf("(pop %d)", n))
 	s.depth -= n
+	if n < len(s.frames) {
+		s.frames = s.frames[:len(s.frames)-n]
+	} else {
+		s.frames = s.frames[:1]
+		s.frames[0] = nil
+	}
 }
 
 func (s *Solver) Depth() int { return s.depth }
@@ -208,6 +217,88 @@ func (s *Solver) Depth() int { return s.depth }
 func (s *Solver) Assert(t *Term) {
 	s.flush()
 	s.send("(assert " + t.S + ")")
+	if len(s.frames) == 0 {
+		s.frames = [][]string{nil}
+	}
+	s.frames[len(s.frames)-1] = append(s.frames[len(s.frames)-1], t.S)
+}
+
+// FreshCheck decides the current assertion stack plus extra in a new solver
+// process (no incremental state): a long push/pop session can leave z3 4.8.12 in
+// a state in which it answers sat (with a model violating asserted constraints)
+// or unknown for queries it decides at once from scratch. kind: solver binary.
+func (s *Solver) FreshCheck(kind string, timeoutMs int, extra []*Term, eval []*Term) (Result, []string) {
+	s.flush()
+	var b strings.Builder
+	b.WriteString("(set-option :produce-models true)\n(set-logic ALL)\n")
+	for _, d := range s.ctx.defs[:s.sentDefs] {
+		b.WriteString(d)
+		b.WriteByte('\n')
+	}
+	for _, f := range s.frames {
+		for _, a := range f {
+			b.WriteString("(assert " + a + ")\n")
+		}
+	}
+	for _, e := range extra {
+		b.WriteString("(assert " + e.S + ")\n")
+	}
+	b.WriteString("(check-sat)\n(echo \"#model#\")\n")
+	for i := 0; i < len(eval); i += 20 {
+		j := i + 20
+		if j > len(eval) {
+			j = len(eval)
+		}
+		b.WriteString("(get-value (")
+		for _, e := range eval[i:j] {
+			b.WriteString(e.S)
+			b.WriteByte(' ')
+		}
+		b.WriteString("))\n(echo \"#chunk#\")\n")
+	}
+	var cmd *exec.Cmd
+	switch kind {
+	case "z3", "z3-new":
+		cmd = exec.Command(kind, "-in", fmt.Sprintf("-t:%d", timeoutMs))
+	case "cvc5":
+		cmd = exec.Command("cvc5", "--lang=smt2", fmt.Sprintf("--tlimit-per=%d", timeoutMs), "--produce-models")
+	default:
+		return SolverError, nil
+	}
+	cmd.Stdin = strings.NewReader(b.String())
+	done := make(chan struct{})
+	var out []byte
+	go func() { out, _ = cmd.CombinedOutput(); close(done) }()
+	select {
+	case <-done:
+	case <-time.After(time.Duration(3*timeoutMs+5000) * time.Millisecond):
+		if cmd.Process != nil {
+			cmd.Process.Kill()
+		}
+		<-done
+		return Unknown, nil
+	}
+	s.FreshStats.Runs++
+	parts := strings.SplitN(string(out), "#model#", 2)
+	r, _ := classify(strings.Split(strings.TrimSpace(parts[0]), "\n"))
+	if r != Sat || len(eval) == 0 || len(parts) < 2 {
+		return r, nil
+	}
+	var vals []string
+	for _, chunk := range strings.Split(parts[1], "#chunk#") {
+		chunk = strings.TrimSpace(chunk)
+		if chunk == "" {
+			continue
+		}
+		if strings.Contains(chunk, "(error") {
+			return SolverError, nil
+		}
+		vals = append(vals, parseGetValue(strings.ReplaceAll(chunk, "\n", " "))...)
+	}
+	if len(vals) != len(eval) {
+		return SolverError, nil
+	}
+	return Sat, vals
 }
 
 func classify(lines []string) (Result, string) {
